@@ -719,7 +719,7 @@ def order_problems(data):
 
 
 def cli_format_flags(ck, d, flags, data, stats, where, replay):
-    """No format flag (the default format) and two format flags at once."""
+    """No format flag (the default format) and several format flags at once."""
     shutil.rmtree(os.path.join(d, ".pyscn", "reports"), ignore_errors=True)
     rc, out, err = lib.pyscn(["analyze", "--no-open"] + flags + ["."], d)
     stats["cli_runs"] += 1
@@ -730,17 +730,26 @@ def cli_format_flags(ck, d, flags, data, stats, where, replay):
         bad = R.compare_numbers(R.html_numbers(open(path).read()), R.terminal_numbers(err), "default-format (HTML) report", "terminal summary")
         if bad:
             report(ck, "the report written without a format flag disagrees with its own run (%s): %s" % (where, "; ".join(bad[:3])), dict(replay, format="default"))
-    for pair in (["--json", "--yaml"], ["--csv", "--html"]):
+    # two or more format flags: an error (exit status 1) before any analysis runs, nothing written - every combination
+    four = ["--html", "--json", "--csv", "--yaml"]
+    combos = [[f for k, f in enumerate(four) if m >> k & 1] for m in range(16)]
+    for combo in [c for c in combos if len(c) >= 2]:
         shutil.rmtree(os.path.join(d, ".pyscn", "reports"), ignore_errors=True)
-        rc, out, err = lib.pyscn(["analyze", "--no-open"] + pair + flags + ["."], d)
+        rc, out, err = lib.pyscn(["analyze", "--no-open"] + combo + flags + ["."], d)
         stats["cli_runs"] += 1
         rep = os.path.join(d, ".pyscn", "reports")
         written = sorted(os.listdir(rep)) if os.path.isdir(rep) else []
+        first = err.strip().splitlines()[0][:200] if err.strip() else ""
+        rp = dict(replay, format="+".join(combo), exit=rc, written=written)
         if rc == 0 and not written:
-            report(ck, "analyze %s exits 0 without having written any report (%s): %s" % (" ".join(pair), where, err.strip().splitlines()[0][:200] if err.strip() else ""),
-                   dict(replay, format="+".join(pair)), {"part": "cli-formats", "flags": "two-format-flags", "exit": 0, "written": 0})
-        elif len(written) > 1:
-            report(ck, "analyze %s wrote several reports %s" % (" ".join(pair), written), dict(replay, format="+".join(pair)))
+            report(ck, "analyze %s exits 0 without having written any report (%s): %s" % (" ".join(combo), where, first), rp)
+        elif written:
+            report(ck, "analyze %s wrote %s although only one format flag can be given (exit %s, %s)" % (" ".join(combo), written, rc, where), rp)
+        elif rc != 1 or "only one output format flag" not in err:
+            report(ck, "analyze %s: exit status %s, message %r; expected status 1 and 'only one output format flag can be specified' (%s)"
+                   % (" ".join(combo), rc, first, where), rp)
+        elif "Analysis Summary" in err or "Health Score" in err:
+            report(ck, "analyze %s ran the analyses before rejecting the flags (%s)" % (" ".join(combo), where), rp)
 
 
 def part_e2e(ck, rng, labels, thorough, stats):
